@@ -19,6 +19,9 @@ Extend == ~done /\ Len(input) < MaxLen /\ \E c \in Alphabet : input' = Append(in
 Finish == ~done /\ done' = TRUE /\ input' = input
 Next == Extend \/ Finish
 \* C11 Total: Render evaluates for every input (TLC reports any evaluation error)
+\* (Render is a function of the pattern and the record: what the thread renders in between - a message whose Display
+\* implementation logs through the same encoder into another sink - plays no part; every other pattern of the replay
+\* is encoded that way)
 Total == done => Len(Render(input)) >= 0
 \* every error piece yields a marker in the output (unless an enclosing width spec made the output approximate)
 RECURSIVE AnyErrorPiece(_)
